@@ -688,6 +688,41 @@ class Emitter:
                 mk(I['res'])
                 I['rtype'] = rt
         self.cur_types = types
+        # typed allocation: operator new(C) whose result is bitcast to T* with sizeof(T) == C becomes malloc(sizeof(T)),
+        # so that CBMC sees a typed (field-sensitive) object instead of a byte array
+        self.typed_alloc = {}
+        alloc_res = {}
+        scaled_by = {}      # local -> (factor, count operand) for  %m = mul i64 %n, C  /  shl i64 %n, k
+        for label, ins in blocks:
+            for I in ins:
+                if I['res'] is not None and I['op'] in ('mul', 'shl') and I['b'][0] == 'int' and I['a'][0] == 'local' and self.resolve(I['type']) == ('int', 64):
+                    scaled_by[I['res']] = ((I['b'][1] if I['op'] == 'mul' else (1 << I['b'][1])), I['a'])
+        for label, ins in blocks:
+            for I in ins:
+                if I['op'] in ('call', 'invoke') and I['res'] is not None and I['callee'][0] == 'global' and I['callee'][1] in ('_Znwm', '_Znam', 'malloc') \
+                        and len(I['args']) == 1:
+                    av = I['args'][0][1]
+                    if av[0] == 'int':
+                        alloc_res[I['res']] = av[1]
+                    elif av[0] == 'local' and av[1] in scaled_by:
+                        alloc_res[I['res']] = scaled_by[av[1]]
+        if alloc_res:
+            for label, ins in blocks:
+                for I in ins:
+                    if I['op'] == 'cast' and I['cast'] == 'bitcast' and I['src'][1][0] == 'local' and I['src'][1][1] in alloc_res \
+                            and I['src'][1][1] not in self.typed_alloc:
+                        dt = I['type']
+                        if dt[0] == 'ptr' and (dt[1][0] in ('named', 'struct') or (isinstance(alloc_res[I['src'][1][1]], tuple) and dt[1][0] in ('ptr', 'int'))):
+                            try:
+                                sz = self.size_align(dt[1])[0]
+                            except IRError:
+                                continue
+                            want = alloc_res[I['src'][1][1]]
+                            if isinstance(want, tuple):
+                                if sz == want[0] and sz > 0:
+                                    self.typed_alloc[I['src'][1][1]] = ('ARRAYOF', dt[1], want[1])     # array of count elements
+                            elif sz == want and sz > 0:
+                                self.typed_alloc[I['src'][1][1]] = dt[1]
         labels = {}
         for label, ins in blocks:
             labels[label] = 'L_' + sanitize(label)
@@ -1065,6 +1100,14 @@ class Emitter:
                 body.append('ir2c_in_u%s = %s() & %s; %s = ir2c_in_u%s;' % (w, cname, self.mask(nw), res if res else 'ir2c_in_u' + w, w))
             else:
                 body.append('ir2c_in_u%s = %s(); %s = ir2c_in_u%s;' % (w, cname, res if res else 'ir2c_in_u' + w, w))
+            self.after_call(I, label, body, False)
+            return
+        if cname in ('_Znwm', '_Znam', 'malloc') and I['res'] is not None and I['res'] in getattr(self, 'typed_alloc', {}) and cname not in self.replace:
+            tt = self.typed_alloc[I['res']]
+            if tt[0] == 'ARRAYOF':
+                body.append('%s = (uint8_t*)malloc(sizeof(%s) * %s); __CPROVER_assume(%s != 0);' % (res, self.ct(tt[1], True), self.cv(('int', 64), tt[2]), res))
+            else:
+                body.append('%s = (uint8_t*)malloc(sizeof(%s)); __CPROVER_assume(%s != 0);' % (res, self.ct(tt, True), res))
             self.after_call(I, label, body, False)
             return
         argv = [self.cv(t, v) for (t, v, a) in args]
